@@ -39,6 +39,14 @@ func VerifReaderReceive(e *actor.Engine, stream DRPCRemote_ReceiveStream) error 
 	return r.Receive(stream)
 }
 
+// VerifSharedReader returns the Receive method of ONE streamReader, the way
+// Remote.Start registers a single reader for all inbound connections: drpc
+// calls it once per connection, concurrently.
+func VerifSharedReader(e *actor.Engine) func(stream DRPCRemote_ReceiveStream) error {
+	r := newStreamReader(&Remote{engine: e})
+	return r.Receive
+}
+
 // VerifUnwrapDeliver looks inside the message of a DeadLetterEvent addressed to a
 // stream writer: the undelivered outbound delivery.
 func VerifUnwrapDeliver(msg any) (d VerifDeliver, ok bool) {
